@@ -355,6 +355,16 @@ def rows_targets():
                   self=w, params={"idx": I},
                   outputs=dict(fields, log_w="return.log_w", weights="return.weights", log_evidence="return.log_evidence",
                                log_evidence_error="return.log_evidence_error", ess="return.effective_sample_size")))
+    # a weightless Samples carrying an evidence (what SMCSamples.to_standard_samples() returns: log_q dropped, evidence attached)
+    u = {"x": var("x", "XV"), "log_likelihood": V("ll"), "log_prior": V("lp"), "log_q": NoneV(),
+         "parameters": Opaque("p"), "dtype": Opaque("d"), "device": NoneV(),
+         "log_w": NoneV(), "weights": NoneV(), "log_evidence": S("le"), "log_evidence_error": S("lee"),
+         "evidence": NoneV(), "evidence_error": NoneV(), "effective_sample_size": NoneV()}
+    T.append(dict(name="samples_getitem_unweighted", module="samples", cls="Samples", func="__getitem__",
+                  inputs=[("x", "XV"), ("ll", "V"), ("lp", "V"), ("le", "S"), ("lee", "S"), ("idx", "I"), ("dX", "X")],
+                  self=u, params={"idx": I},
+                  outputs={"x": "return.x", "log_likelihood": "return.log_likelihood", "log_prior": "return.log_prior",
+                           "log_evidence": "return.log_evidence", "log_evidence_error": "return.log_evidence_error"}))
     return T
 
 
